@@ -178,7 +178,7 @@ def to_sx(e) -> str:
 
 # ---- malformed stream -------------------------------------------------------------------------------------
 
-TOKEN_ALPHABET = ["a", "b1", "1", "07", "+", "-", "*", "/", "^", "(", ")", ",", "=", "min", "max", "isqrt", "...", "*a", " "]
+TOKEN_ALPHABET = ["a", "b1", "_c", "1", "07", "+", "-", "*", "/", "^", "(", ")", ",", "=", "min", "max", "isqrt", "...", "*a", " "]
 NOISE = ["a", "b", "ab", "x1", "a_b", "min", "max", "isqrt", "mina", "isqrt4", "_", "A", "...", ".", "..", "1", "2", "10",
          "007", "0", "(", ")", ",", "+", "-", "*", "/", "^", "=", " ", "  ", "[", "]", "%", "3a", "a3", "?", "**", "'", '"', "\\", "~"]
 
